@@ -106,3 +106,88 @@ Proof.
   exact (conj ComplexOrder.shoot_minus_analytic_complex ComplexOrder.uniform_grid_converges_complex).
 Qed.
 Goal True. idtac "THEOREM C01_convergence_partial". Abort. Print Assumptions C01_convergence_partial.
+
+(* ------------------------------------------------------------------------------------------
+   CONVERGENCE FOR HEIGHT-DEPENDENT PROFILES (Proofs/VaryingOrder.v; instance ROps; stdlib real axioms).
+   Coefficient functions Kx Ky u v Kz : R -> R on [z0, z0+H] with Kz >= kmin > 0, |T(z)| <= Tmax and
+   1/Kz, T Lipschitz (coeff_hyps); the layers of the model take ALL coefficients at the lower node of
+   each layer (layers_v, as ivp_solver does).  The exact solutions of the boundary-value problem
+        P' = -Q/Kz,   Q' = T P,   Q(z0) = qh,   Q(zN) = Kz(zN) lam P(zN)   (lam = the model's eigval at the top node)
+   and of the fundamental problem (P1, Q1)(z0) = (1, 0) enter as HYPOTHESES (exact_solution: no ODE
+   existence theory is installed), together with a lower bound Dmin of the continuous shooting denominator.
+   Then there are EXPLICIT h0 > 0 and C2 (closed-form in kmin, Tmax, the Lipschitz constants, H, the sup
+   norms and Dmin: VaryingOrder.h0_explicit, C2_explicit) such that on EVERY grid with 0 <= dz_j <= dmax <= h0
+   covering [z0, z0+H]:  the model's shooting denominator is non-zero (>= Dmin/2), and at every node the
+   returned concentration and flux modes differ from P and Q by at most C2 * dmax  — the error is a
+   multiple of the layer thickness and shrinks in proportion to it. *)
+From BL Require Proofs.VaryingOrder.
+Theorem C01_convergence_varying :
+  forall (Kx Ky u v Kz : R -> R) (lx ly z0 H kmin Tmax LK LT : R)
+         (P1 Q1 P Q : R -> C) (Y1 Y : R) (qh : C) (Dmin : R),
+  let zN := (z0 + H)%R in
+  let KzN := RtoC (Kz zN) in
+  let lam := eigval ROps.ROps (RtoC (Kx zN)) (RtoC (Ky zN)) (RtoC (u zN)) (RtoC (v zN)) (RtoC (Kz zN))
+                    (RtoC lx) (RtoC ly) in
+  VaryingOrder.coeff_hyps Kx Ky u v Kz lx ly z0 H kmin Tmax LK LT ->
+  VaryingOrder.exact_solution Kx Ky u v Kz lx ly z0 H P1 Q1 Y1 -> P1 z0 = RtoC 1 -> Q1 z0 = RtoC 0 ->
+  VaryingOrder.exact_solution Kx Ky u v Kz lx ly z0 H P Q Y ->
+  Q z0 = qh -> Q zN = Cmult (Cmult KzN lam) (P zN) ->
+  (0 < Dmin)%R -> (Dmin <= Cmod (Cminus (Q1 zN) (Cmult (Cmult KzN lam) (P1 zN))))%R ->
+  let hh := VaryingOrder.h0 H kmin Tmax LK LT Y1 KzN lam Dmin in
+  let CC2 := VaryingOrder.C2 H kmin Tmax LK LT Y1 Y KzN lam Dmin in
+  (0 < hh)%R /\
+  forall (dzs : list R) (dmax : R),
+  VaryingOrder.grid_ok dzs dmax -> ComplexOrder.Rsum dzs = H -> (dmax <= hh)%R ->
+  let layers := VaryingOrder.layers_v Kx Ky u v Kz z0 dzs in
+  let y1 := final ROps.ROps (RtoC lx) (RtoC ly) layers (RtoC 1, RtoC 0) in
+  let y2 := final ROps.ROps (RtoC lx) (RtoC ly) layers (RtoC 0, qh) in
+  let al := alpha ROps.ROps KzN lam (fst y1) (snd y1) (fst y2) (snd y2) in
+  (Dmin / 2 <= Cmod (Cminus (snd y1) (Cmult (Cmult KzN lam) (fst y1))))%R /\
+  Cminus (snd y1) (Cmult (Cmult KzN lam) (fst y1)) <> RtoC 0 /\
+  forall k, (k <= length dzs)%nat ->
+    let sk := shoot_traj ROps.ROps (RtoC lx) (RtoC ly) layers al qh k in
+    (Cmod (Cminus (fst sk) (P (VaryingOrder.zk z0 dzs k))) <= CC2 * dmax)%R /\
+    (Cmod (Cminus (snd sk) (Q (VaryingOrder.zk z0 dzs k))) <= CC2 * dmax)%R.
+Proof. exact VaryingOrder.shooting_first_order_model. Qed.
+
+(* the layers really are "coefficients at the lower node z_k, thickness dz_k" *)
+Theorem C01_varying_layers : forall Kx Ky u v Kz z0 dzs k Ld, (k < length dzs)%nat ->
+  nth k (VaryingOrder.layers_v Kx Ky u v Kz z0 dzs) Ld
+  = mkLayer ROps.ROps (RtoC (Kx (VaryingOrder.zk z0 dzs k))) (RtoC (Ky (VaryingOrder.zk z0 dzs k)))
+                      (RtoC (u (VaryingOrder.zk z0 dzs k))) (RtoC (v (VaryingOrder.zk z0 dzs k)))
+                      (RtoC (Kz (VaryingOrder.zk z0 dzs k))) (RtoC (nth k dzs 0%R)).
+Proof. exact VaryingOrder.layers_v_nth. Qed.
+
+(* ... and they are exactly the layers Model/Solver.v builds (layers_of) from the ARRAYS a caller passes:
+   the node heights z_0 .. z_N and the coefficient functions sampled at those nodes — so the theorem is
+   about the model's solve on sampled profiles, for every grid *)
+From BL Require Proofs.VaryingBridge.
+Theorem C01_varying_layers_are_the_models : forall (Kx Ky u v Kz : R -> R) (dzs : list R) (z0 : R),
+  layers_of ROps.ROps (map RtoC (VaryingBridge.nodes z0 dzs))
+            (VaryingBridge.sampled_profiles Kx Ky u v Kz (VaryingBridge.nodes z0 dzs))
+  = VaryingOrder.layers_v Kx Ky u v Kz z0 dzs.
+Proof. exact VaryingBridge.layers_of_sampled. Qed.
+
+(* IVP part alone: the discrete sweep started from exact data stays within Cconst * dmax of the exact solution *)
+Theorem C01_ivp_first_order :
+  forall (Kx Ky u v Kz : R -> R) (lx ly z0 H kmin Tmax LK LT : R) (P Q : R -> C) (Ymax : R),
+  VaryingOrder.coeff_hyps Kx Ky u v Kz lx ly z0 H kmin Tmax LK LT ->
+  VaryingOrder.exact_solution Kx Ky u v Kz lx ly z0 H P Q Ymax ->
+  forall (dzs : list R) (dmax : R),
+  VaryingOrder.grid_ok dzs dmax -> (dmax <= 1)%R -> (ComplexOrder.Rsum dzs <= H)%R ->
+  forall k, (k <= length dzs)%nat ->
+  let wk := nth k (traj ROps.ROps (RtoC lx) (RtoC ly) (VaryingOrder.layers_v Kx Ky u v Kz z0 dzs) (P z0, Q z0)) (RtoC 0, RtoC 0) in
+  (Rmax (Cmod (Cminus (fst wk) (P (VaryingOrder.zk z0 dzs k)))) (Cmod (Cminus (snd wk) (Q (VaryingOrder.zk z0 dzs k))))
+    <= VaryingOrder.Cconst kmin Tmax LK LT H Ymax * dmax)%R.
+Proof. exact VaryingOrder.ivp_first_order. Qed.
+
+(* uniform refinements: both errors at the top node tend to 0; and a height-dependent, non-degenerate
+   instance (Kz = 1+z, Kx = 1/(1+z), lx = 1 on [0,1]; decaying solution P = Q = 1/(1+z); the model's own
+   eigval at the top node is 1/2; continuous denominator -2) discharges every hypothesis *)
+Theorem C01_convergence_varying_nonvacuous : True.
+Proof. pose proof VaryingOrder.instance_shooting_converges. exact I. Qed.
+
+Goal True. idtac "THEOREM C01_convergence_varying". Abort. Print Assumptions C01_convergence_varying.
+Goal True. idtac "THEOREM C01_varying_layers". Abort. Print Assumptions C01_varying_layers.
+Goal True. idtac "THEOREM C01_ivp_first_order". Abort. Print Assumptions C01_ivp_first_order.
+Goal True. idtac "THEOREM C01_varying_layers_are_the_models". Abort. Print Assumptions C01_varying_layers_are_the_models.
